@@ -28,6 +28,9 @@ struct Case {
     ka_write_stall: Option<usize>,
     /// the Client Information frame arrives in two pieces: the first `cut` bytes, the rest after a pause
     ci_split: Option<(usize, Duration)>,
+    /// a Plugin Message sent this long after Client Information (i.e. during routing) arrives in two
+    /// pieces: (delay after Client Information, cut, pause)
+    extra_split: Option<(Duration, usize, Duration)>,
     seed: u64,
 }
 
@@ -71,7 +74,7 @@ fn generate(cli: &Cli) -> Vec<Case> {
                 for e in &echoes {
                     let mut lat = [Duration::ZERO; 3];
                     lat[slow_stage] = *l;
-                    out.push(Case { class: String::new(), pre_login: Duration::from_secs(pre), ci_delay: Duration::from_secs(ci), lat, echo: e.clone(), unsolicited: false, ka_write_stall: None, ci_split: None, seed: rng.u64() });
+                    out.push(Case { class: String::new(), pre_login: Duration::from_secs(pre), ci_delay: Duration::from_secs(ci), lat, echo: e.clone(), unsolicited: false, ka_write_stall: None, ci_split: None, extra_split: None, seed: rng.u64() });
                 }
             }
         }
@@ -79,7 +82,7 @@ fn generate(cli: &Cli) -> Vec<Case> {
     // the first Keep Alive is half written when discovery completes (every cut of the frame)
     for k in 1..10usize {
         for e in [EchoKind::Prompt, EchoKind::DelayedPermille(500), EchoKind::Never, EchoKind::WrongId] {
-            out.push(Case { class: String::new(), pre_login: Duration::ZERO, ci_delay: Duration::ZERO, lat: [Duration::ZERO; 3], echo: e, unsolicited: false, ka_write_stall: Some(k), ci_split: None, seed: rng.u64() });
+            out.push(Case { class: String::new(), pre_login: Duration::ZERO, ci_delay: Duration::ZERO, lat: [Duration::ZERO; 3], echo: e, unsolicited: false, ka_write_stall: Some(k), ci_split: None, extra_split: None, seed: rng.u64() });
         }
     }
     // random schedules with jitter
@@ -103,6 +106,7 @@ fn generate(cli: &Cli) -> Vec<Case> {
             unsolicited: rng.chance(1, 8),
             ka_write_stall: None,
             ci_split: if rng.chance(1, 6) { Some((1 + rng.usize_below(12), Duration::from_millis(rng.below(80_000)))) } else { None },
+            extra_split: if rng.chance(1, 6) { Some((Duration::from_millis(rng.below(50_000)), 1 + rng.usize_below(20), Duration::from_millis(rng.below(80_000)))) } else { None },
             seed: rng.u64(),
         });
     }
@@ -120,6 +124,26 @@ fn generate(cli: &Cli) -> Vec<Case> {
                     unsolicited: false,
                     ka_write_stall: None,
                     ci_split: Some((cut, Duration::from_secs(pause))),
+                    extra_split: None,
+                    seed: rng.u64(),
+                });
+            }
+        }
+    }
+    // the same with a tolerated frame in the middle of routing (discovery takes 100 s)
+    for (at, pause) in [(3u64, 10u64), (3, 20), (3, 40), (20, 33), (30, 70)] {
+        for cut in [1usize, 2, 11] {
+            for e in [EchoKind::Prompt, EchoKind::DelayedPermille(500), EchoKind::Never, EchoKind::WrongId, EchoKind::StopAfter(1)] {
+                out.push(Case {
+                    class: String::new(),
+                    pre_login: Duration::ZERO,
+                    ci_delay: Duration::ZERO,
+                    lat: [Duration::from_secs(100), Duration::ZERO, Duration::ZERO],
+                    echo: e,
+                    unsolicited: false,
+                    ka_write_stall: None,
+                    ci_split: None,
+                    extra_split: Some((Duration::from_secs(at), cut, Duration::from_secs(pause))),
                     seed: rng.u64(),
                 });
             }
@@ -139,6 +163,9 @@ fn generate(cli: &Cli) -> Vec<Case> {
         }
         if let Some((cut, pause)) = c.ci_split {
             c.class = format!("{}/client-information-split@{}-pause-{}", c.class, cut.min(3), bucket(pause));
+        }
+        if let Some((at, cut, pause)) = c.extra_split {
+            c.class = format!("{}/plugin-message-at-{}-split@{}-pause-{}", c.class, bucket(at), cut.min(3), bucket(pause));
         }
     }
     out
@@ -163,6 +190,13 @@ fn scenario(c: &Case, echo: Echo, lat: [Duration; 3]) -> (Scenario, std::net::So
     plan.deadline = Duration::from_secs(900);
     if let Some((cut, pause)) = c.ci_split {
         plan.seg.label_splits.push(("ClientInformation".into(), vec![(cut, pause)]));
+    }
+    if let Some((at, cut, pause)) = c.extra_split {
+        if let Some(pos) = plan.script.iter().position(|a| matches!(a, Act::Send { label, .. } if label == "ClientInformation")) {
+            plan.script.insert(pos + 1, Act::Sleep(at));
+            plan.script.insert(pos + 2, send("ExtraPluginMessage", Pkt::ConfPluginMessageIn { raw: b"\x0fminecraft:brandvanilla-with-a-longer-tail".to_vec() }));
+            plan.seg.label_splits.push(("ExtraPluginMessage".into(), vec![(cut, pause)]));
+        }
     }
     let targets = mk::targets(&mut rng, 3);
     let pick = rng.below(3) as usize;
@@ -201,6 +235,7 @@ fn run_case(c: &Case) -> Outcome {
     cal_lat[2] += Duration::from_secs(200);
     let mut cal_case = c.clone();
     cal_case.ci_split = None;
+    cal_case.extra_split = None;
     let (cal_sc, _) = scenario(&cal_case, Echo::After(Duration::ZERO), cal_lat);
     let cal = run(&cal_sc);
     let cal_ka: Vec<u64> = ka_times(&cal).iter().map(|k| k.1).collect();
@@ -270,7 +305,7 @@ fn run_case(c: &Case) -> Outcome {
     };
     let mut due = unechoed.and_then(|j| cal_ka.get(j + 1).copied());
     let mut unechoed = unechoed;
-    if c.ci_split.is_some() {
+    if c.ci_split.is_some() || c.extra_split.is_some() {
         // half a frame on the wire keeps every later frame - an echo too - back until the rest
         // has been sent: what the client left unechoed is read off what it actually sent, against
         // the cadence of the calibration run (which has no split)
@@ -293,7 +328,7 @@ fn run_case(c: &Case) -> Outcome {
     // instants at which two things happen at once are not judged
     let near = |a: u64, b: u64| a.abs_diff(b) < 2_000_000;
     let ambiguous = match (unechoed, due) {
-        (Some(j), Some(due)) => near(routing_done, due) || cal_ka.get(j).map(|k| near(routing_done, *k)).unwrap_or(false) || (c.ci_split.is_some() && r.client.sent.iter().any(|s| s.label.starts_with("KeepAliveEcho") && near(s.t_ns, due))),
+        (Some(j), Some(due)) => near(routing_done, due) || cal_ka.get(j).map(|k| near(routing_done, *k)).unwrap_or(false) || ((c.ci_split.is_some() || c.extra_split.is_some()) && r.client.sent.iter().any(|s| s.label.starts_with("KeepAliveEcho") && near(s.t_ns, due))),
         (Some(_), None) => true,
         _ => false,
     };
@@ -381,7 +416,7 @@ pub fn run_prop(cli: &Cli) -> i32 {
     let mut report = Report::new(
         cli,
         "exploration",
-        "virtual-time schedules: grid of per-stage routing latency {0,1,15.9,16,17,40,100 s} × Client Information delay {0,5,20,50 s} × echo policy {prompt, delayed by 0.1%/50%/100%-1ms of the observed period, never, wrong id, id of the previous Keep Alive, duplicate, stop after 1/2}, plus random jittered schedules with unsolicited echoes; the period and tick alignment are inferred from a prompt-echo calibration run of the same schedule, only the 16 s upper bound is hard-coded; distinct = latency/echo class",
+        "virtual-time schedules: grid of per-stage routing latency {0,1,15.9,16,17,40,100 s} × Client Information delay {0,5,20,50 s} × echo policy {prompt, delayed by 0.1%/50%/100%-1ms of the observed period, never, wrong id, id of the previous Keep Alive, duplicate, stop after 1/2}, plus random jittered schedules with unsolicited echoes; the first Keep Alive half written (every cut) while discovery completes; Client Information, or a Plugin Message in the middle of routing, arriving in two pieces 10-70 s apart (what the client left unechoed is then read off its own send log); the period and tick alignment are inferred from a prompt-echo calibration run of the same schedule, only the 16 s upper bound is hard-coded; distinct = latency/echo class",
     );
     report.assume("instants at which routing completes within 2 ms of a keep-alive tick are not judged");
     let cases = generate(cli);
